@@ -8,7 +8,7 @@
    views, all flag records (the four -tagcase values), all values.
 
    Guards: [c02_guard] (C02), and the decidable [json_aligned] / [json_keys_ok] of the round trip.  The input classes
-   of the open findings K_json_exported_snake, K_json_promoted_tag_lost, K_json_promoted_marshaler, K_json_nil_embed
+   of the open findings K_json_promoted_tag_lost, K_json_promoted_marshaler, K_json_nil_embed
    are refuted by witnesses below.  This file contains only statements closed by [exact]. *)
 From Coq Require Import String Ascii List Bool Arith ZArith.
 From Shoot Require Import Base.Str Base.GoVal Model.Transfer Model.CtorDirective Model.Ctor Model.CtorSpec Model.CtorOpt
@@ -162,23 +162,21 @@ Proof.
 Qed.
 Print Assumptions C11_refuted_K_json_promoted_tag_lost.
 
-(* K_json_exported_snake: the shadow struct declares MaxSize, the generated literal says Max_Size *)
+(* K_json_exported_snake (repaired, /repo d93a0ce): an exported field whose name changes under Pascal-casing is inside
+   the guard; the shadow struct declares MaxSize for the field Max_Size, the member is "maxSize" under -tagcase=camel *)
 Definition w_conf : sdecl :=
   {| sd_pkg := ""; sd_name := "Conf"; sd_tparams := []; sd_doc := "";
      sd_fields := [fd1 "Max_Size" (TBasic "int") ""; fd1 "name" (TBasic "string") ""] |}.
 
-Theorem C11_refuted_K_json_exported_snake :
-  exists pkg sd fields d nd jd,
-    json_of pkg [] (js_flags TagCamel) 8 sd = COk (fields, d, nd, jd) /\
-    c02_guard pkg 8 sd = true /\ exported_names_pascal pkg 8 sd = false /\
-    jd_exported jd = ["Max_Size"] /\ map (fun r => fst (fst r)) (shadow_struct nd jd) = ["MaxSize"; "Name"].
-Proof.
-  exists [w_conf], w_conf.
-  destruct (json_of [w_conf] [] (js_flags TagCamel) 8 w_conf) as [[[[fields d] nd] jd]| |] eqn:E;
-    try (vm_compute in E; discriminate).
-  exists fields, d, nd, jd. split; [reflexivity|]. vm_compute in E. inversion E; subst. vm_compute. repeat split; reflexivity.
-Qed.
-Print Assumptions C11_refuted_K_json_exported_snake.
+Example C11_example_exported_snake :
+  c11_guard [w_conf] (js_flags TagCamel) 8 w_conf = true /\
+  match json_of [w_conf] [] (js_flags TagCamel) 8 w_conf with
+  | COk (_, _, nd, jd) =>
+      jd_exported jd = ["Max_Size"] /\ map (fun r => fst (fst r)) (shadow_struct nd jd) = ["MaxSize"; "Name"] /\
+      map (json_key jd) (jd_list jd) = ["maxSize"; "name"]
+  | _ => False
+  end.
+Proof. vm_compute. repeat split; reflexivity. Qed.
 
 (* K_json_promoted_marshaler: Wrap{Base; X int `json:"x"`} analysed before Base: Wrap gets no JSON code, Base does,
    so Base's MarshalJSON is promoted to Wrap *)
